@@ -4,12 +4,14 @@ from __future__ import annotations
 from flamapy.metamodels.fm_metamodel.operations import FMEstimatedConfigurationsNumber
 
 from .. import engine, sem
+from .. import shadow as sh
 from ..engine import Fail
 from . import common as cm
 from . import opscfg
 
 ID = 'C13'
 cases, describe, reduce, nontrivial = opscfg.cases, opscfg.describe, opscfg.reduce, opscfg.nontrivial
+outcome_big = 'big'
 
 
 def plan(tier):
@@ -21,6 +23,11 @@ def selftest():
 
 
 def judge(res, model):
+    if sh.size(model) > 16:
+        exact_tree = sem.count_closed_form(model)
+        if isinstance(res, bool) or not isinstance(res, int) or res != exact_tree:
+            return [Fail('estimate', {'estimate': str(res)[:40], 'exact': str(exact_tree)[:40]})]
+        return []
     tcs = sem.tree_configs_cached(model)
     exact_tree = len(tcs)
     if exact_tree != sem.count_closed_form(model):
@@ -38,7 +45,7 @@ def judge(res, model):
 
 
 def check(case):
-    model = case[1]
+    model = opscfg.resolve(case)
     if case[0] == 'SE':
         return opscfg.edit_history(model, FMEstimatedConfigurationsNumber, judge)
     fm, fails = cm.built(model)
@@ -53,4 +60,8 @@ def check(case):
 
 
 def outcome(case):
+    if case[0] == 'B':
+        return 'big'
+    if sh.size(case[1]) > 16:
+        return 'big'
     return 'tree=%d' % len(sem.tree_configs_cached(case[1]))
